@@ -563,6 +563,9 @@ def debug_run(mode, f, g, args, env):
         return 'converted(opaque) raised %s: %s\n   at %s' % (type(e).__name__, e, where)
     finally:
       OPAQUE['checking'] = False
+  if post == 'errors':
+    post_errors(mode, f, g, args, env)
+    return 'why: %s' % (C12['why'],)
   if post == 'contract':
     CONTRACT['loop_opts'] = mode.get('loop_opts')
     CONTRACT['iter_names'] = mode.get('iter_names')
@@ -606,3 +609,153 @@ def post_ctx(mode, f, g, args, env):
   of = rt.obs(f, args, env)
   strip = lambda o: (o[0], [e for e in o[1] if not (isinstance(e, tuple) and e and e[0] == 'status')], o[2], o[3])
   return rt.same_obs(strip(of), strip(og))
+
+
+# ---------------------------------------------------------------------------
+# C12: errors reported at the original source location
+# ---------------------------------------------------------------------------
+
+class CustomInitError(Exception):
+  """User exception whose constructor needs extra arguments."""
+
+  def __init__(self, a, b):
+    Exception.__init__(self, '%s/%s' % (a, b))
+    self.a = a
+
+
+C12 = {'why': None}
+
+
+def _user_frames(tb, filename):
+  import traceback
+  return [(fr.lineno, fr.name) for fr in traceback.extract_tb(tb) if fr.filename == filename]
+
+
+def _top_level_ranges(filename):
+  import ast
+  with open(filename) as fh:
+    tree = ast.parse(fh.read())
+  out = []
+  for n in tree.body:
+    if isinstance(n, ast.FunctionDef):
+      out.append((n.lineno, n.end_lineno, n.name))
+  return out
+
+
+_RANGES = {}
+
+
+def post_errors(mode, f, g, args, env):
+  """C12 postcondition (see vf/checks/C12.py)."""
+  from malt.pyct import error_utils
+  from malt.impl import api
+  from vf import rt
+  C12['why'] = None
+  filename = f.__code__.co_filename
+  del rt.LOG[:]
+  if env is not None:
+    env.reset()
+  a1 = tuple(list(a) if isinstance(a, list) else a for a in args)
+  ef = None
+  try:
+    rf = f(*a1)
+  except Exception as e:  # pylint:disable=broad-except
+    ef = e
+  log_f = list(rt.LOG)
+  del rt.LOG[:]
+  if env is not None:
+    env.reset()
+  a2 = tuple(list(a) if isinstance(a, list) else a for a in args)
+  eg = None
+  try:
+    rg = g(*a2)
+  except Exception as e:  # pylint:disable=broad-except
+    eg = e
+  log_g = list(rt.LOG)
+  if (ef is None) != (eg is None):
+    C12['why'] = 'outcome kind differs: original %r, converted %r' % (ef, eg)
+    return False
+  if ef is None:
+    if not rt.same_value((rf, log_f), (rg, log_g)):
+      C12['why'] = 'results differ'
+      return False
+    return True
+  if not rt.same_value(log_f, log_g):
+    C12['why'] = 'tracer logs differ before the failure'
+    return False
+  # --- exception type rule -------------------------------------------------
+  tf, tg = type(ef), type(eg)
+  same_required = (tf in error_utils.KNOWN_STRING_CONSTRUCTOR_ERRORS or tf is KeyError or
+                   (tf.__module__ != 'builtins' and '__init__' not in tf.__dict__ and '__new__' not in tf.__dict__
+                    and all('__init__' not in b.__dict__ and '__new__' not in b.__dict__
+                            for b in tf.__mro__ if b.__module__ != 'builtins')))
+  staging_required = tf.__module__ != 'builtins' and not same_required
+  if same_required and not (tg is tf or (tf is KeyError and isinstance(eg, KeyError))):
+    C12['why'] = 'exception type %s became %s' % (tf.__name__, tg.__name__)
+    return False
+  if staging_required and tg is not api.StagingError:
+    C12['why'] = 'exception type %s (own constructor) became %s, expected StagingError' % (tf.__name__, tg.__name__)
+    return False
+  if not same_required and not staging_required and tg not in (tf, api.StagingError):
+    C12['why'] = 'exception type %s became %s' % (tf.__name__, tg.__name__)
+    return False
+  # --- message ---------------------------------------------------------------
+  msg = str(ef)
+  if msg and msg not in str(eg):
+    C12['why'] = 'original message %r not contained in %r' % (msg, str(eg)[:200])
+    return False
+  # --- location ----------------------------------------------------------------
+  md = getattr(eg, 'ag_error_metadata', None)
+  if md is None:
+    C12['why'] = 'no ag_error_metadata on the exception'
+    return False
+  frames_f = _user_frames(ef.__traceback__, filename)       # outermost first
+  if not frames_f:
+    return True
+  if filename not in _RANGES:
+    _RANGES[filename] = _top_level_ranges(filename)
+
+  def unit(lineno):
+    for lo, hi, name in _RANGES[filename]:
+      if lo <= lineno <= hi:
+        return name
+    return None
+
+  # one entry per separately converted function on the call path: the innermost
+  # frame of each maximal run of frames belonging to the same top-level function
+  expected = []
+  for ln, nm in frames_f:
+    u = unit(ln)
+    if expected and expected[-1][0] == u:
+      expected[-1] = (u, ln)
+    else:
+      expected.append((u, ln))
+  expected_innermost_first = [ln for _, ln in reversed(expected)]
+  listed = [fi for fi in md.translated_stack if fi.filename == filename]
+  conv = [fi.lineno for fi in listed if fi.is_converted]
+  if not listed or listed[0].lineno != frames_f[-1][0]:
+    C12['why'] = 'innermost reported user line %r, original failing line %r' % (
+        [fi.lineno for fi in listed[:1]], frames_f[-1][0])
+    return False
+  if mode.get('all_units_converted', True):
+    if conv != expected_innermost_first:
+      C12['why'] = 'reported converted frames %r, expected (one per converted function, innermost first) %r' % (
+          conv, expected_innermost_first)
+      return False
+  else:
+    # with do_not_convert callees only a subsequence of the units is converted
+    it = iter(expected_innermost_first)
+    if not all(any(c == e for e in it) for c in conv) or not conv:
+      C12['why'] = 'reported converted frames %r are not a subsequence of %r' % (conv, expected_innermost_first)
+      return False
+  # every listed user frame is a frame of the original traceback, in order
+  rev = [ln for ln, _ in reversed(frames_f)]
+  k = 0
+  for fi in listed:
+    while k < len(rev) and rev[k] != fi.lineno:
+      k += 1
+    if k == len(rev):
+      C12['why'] = 'listed frame line %d is not a frame of the original traceback %r' % (fi.lineno, rev)
+      return False
+    k += 1
+  return True
